@@ -631,7 +631,7 @@ def gen_powerlaw_cases(ctx):
 def gen_mle_cases(ctx):
     rng = ctx.rng
     cases = []
-    vals = [1, 2, 3, 5]
+    vals = [0, 1, 2, 3, 5]          # 0: a clonotype absent from this sample of a merged table - below every threshold, never fitted
     Lmax = 3 if ctx.quick else 4
     for L in range(1, Lmax + 1):
         for c in itertools.product(vals, repeat=L):
@@ -646,6 +646,10 @@ def gen_mle_cases(ctx):
         if rng.random() < 0.1:
             c = [int(cmin)] * n if float(cmin) == int(cmin) else c      # degenerate: every count equals cmin
         c = [min(v, 10 ** 6) for v in c]
+        if rng.random() < 0.3:
+            c += [0] * rng.randint(1, 5)         # zero counts (absent clonotypes) lie below any cmin
+            rng.shuffle(c)
+            ctx.count('mle:counts_with_zeros')
         cases.append((c, cmin, rng.choice(list(METHODS)), rng.choice(['list', 'ndarray', 'series', 'tuple'])))
     return cases
 
